@@ -12,7 +12,12 @@ ID = "C09"
 LEAN_TARGETS = ["PV.Props.C09"]
 RULE = ("per TLE the complete single-character corruption table (2 lines x 69 positions x 95 printable ASCII "
         "replacements) through Tle(line1=, line2=); sampled corruptions through a file and a StringIO; "
-        "a case is non-trivial when the replacement differs from the original character; distinct = (tle, line, pos, char)")
+        "collections of 2-4 entries (with / without name lines, LF / CRLF, one or two files) with exactly one entry "
+        "corrupted digit -> other digit, read through every collection-reading entry point (tlefile.read by name from a "
+        "path / a StringIO / the TLES pattern, by registered number, Tle('', StringIO), Downloader.read_tle_files, "
+        "fetch_plain_tle and fetch_spacetrack with `requests` interposed), the intact collection read from the same path "
+        "first; a case is non-trivial when the replacement differs from the original character; "
+        "distinct = (tle, line, pos, char)")
 ASSUMPTIONS = ["input restricted to printable ASCII (Python's Unicode isdigit/strip on non-ASCII is outside the model)",
                "lines are judged after strip(), as the library stores them"]
 TRUSTED = ["model: PV.Model.Checksum (hand-written from tlefile.py:195-225), tied by the complete corruption table per TLE"]
@@ -176,6 +181,7 @@ def oracle(ctx):
             mod = base[:i] + ch + base[i + 1:]
             mods.append((mod, l2) if w == 1 else (l1, mod))
         inplace_file_probe(ctx, l1, l2, mods)
+    collection_probe(ctx)
 
 
 def inplace_file_probe(ctx, l1, l2, mods, tmpdir=None):
@@ -212,12 +218,333 @@ def inplace_file_probe(ctx, l1, l2, mods, tmpdir=None):
     return bad
 
 
+# ------------------------------------------------------------------ collections: files and streams with several entries
+# "for TLEs given as lines, from files and from streams": an element set that reaches the library as one entry of a
+# multi-entry file or stream is accepted only if its two lines satisfy the rule; a digit -> other digit corruption of one
+# entry is rejected with a checksum error and never yields elements - neither the corrupted lines nor another object standing
+# in for the damaged entry.
+COLL_NAMES = ["PVSAT-A", "PVSAT B2", "X-RAY 7 (TEST)", "QUARK 12", "OBJECT Z"]      # not registered platforms, no "1 " prefix
+WHOLE_ROUTES = ["dl_files", "dl_files2", "dl_glob", "dl_plain", "dl_spacetrack"]      # return every entry of the collection
+NAME_ROUTES = ["byname_file", "byname_stringio", "byname_env"]                        # look one entry up by its name line
+ST_LOGIN = "https://www.space-track.org/ajaxauth/login"
+
+
+class _Reply:
+    def __init__(self, status, text):
+        self.status_code = status
+        self.text = text
+        self.content = text.encode("utf-8")
+        self.ok = status < 400
+
+
+class _Interposed:
+    """requests.get / requests.Session answer with the given text for the duration of the block (no network)."""
+
+    def __init__(self, text):
+        import requests
+        self.rq = requests
+        self.text = text
+
+    def __enter__(self):
+        rq, me = self.rq, self
+        self.saved = (rq.get, rq.post, rq.Session, rq.request)
+
+        def fake_get(url, **kw):
+            return _Reply(200, me.text)
+
+        class FakeSession:
+            def __init__(self, *a, **k):
+                pass
+
+            def __enter__(self):
+                return self
+
+            def __exit__(self, *a):
+                return False
+
+            def close(self):
+                pass
+
+            def post(self, url, data=None, **kw):
+                return _Reply(200, "")
+
+            def get(self, url, **kw):
+                return _Reply(200, me.text)
+
+        def refuse(*a, **k):
+            raise AssertionError("unexpected request")
+
+        rq.get, rq.post, rq.Session, rq.request = fake_get, refuse, FakeSession, refuse
+        return self
+
+    def __exit__(self, *a):
+        rq = self.rq
+        rq.get, rq.post, rq.Session, rq.request = self.saved
+        return False
+
+
+def coll_text(entries, sep, trailing=True):
+    lines = []
+    for (name, l1, l2) in entries:
+        if name is not None:
+            lines.append(name)
+        lines += [l1, l2]
+    return sep.join(lines) + (sep if trailing else "")
+
+
+def _write(path, text):
+    with open(path, "w", newline="") as f:
+        f.write(text)
+
+
+def run_route(route, entries, sep, tmpdir, lookup=None):
+    """Read the collection through one entry point -> ('exc', 'c' | class name, message) | ('objs', [(line1, line2), ...])."""
+    tlefile = _tlefile()
+    text = coll_text(entries, sep)
+    pa = os.path.join(tmpdir, "coll-a.tle")
+    pb = os.path.join(tmpdir, "coll-b.tle")
+    saved_env = os.environ.get("TLES")
+    try:
+        try:
+            if route in ("dl_files", "dl_glob", "byname_file", "bynumber_file", "byname_env"):
+                _write(pa, text)
+                if os.path.exists(pb):
+                    os.remove(pb)
+            if route == "dl_files":
+                objs = tlefile.Downloader({"downloaders": {"read_tle_files": {"paths": [pa]}}}).read_tle_files()
+            elif route == "dl_glob":
+                objs = tlefile.Downloader({"downloaders": {"read_tle_files": {"paths": [os.path.join(tmpdir, "coll-*.tle")]}}}).read_tle_files()
+            elif route == "dl_files2":
+                m = (len(entries) + 1) // 2
+                _write(pa, coll_text(entries[:m], sep))
+                _write(pb, coll_text(entries[m:], sep))
+                objs = tlefile.Downloader({"downloaders": {"read_tle_files": {"paths": [pa, pb]}}}).read_tle_files()
+            elif route == "dl_plain":
+                cfg = {"downloaders": {"fetch_plain_tle": {"src": ["https://host.example/tle/collection.txt"]}}}
+                with _Interposed(text):
+                    objs = tlefile.Downloader(cfg).fetch_plain_tle()["src"]
+            elif route == "dl_spacetrack":
+                cfg = {"platforms": dict((int(l1[2:7]), name or "SAT%d" % i) for i, (name, l1, _) in enumerate(entries)
+                                         if l1[2:7].strip().isdigit()),
+                       "downloaders": {"fetch_spacetrack": {"user": "u", "password": "p"}}}
+                with _Interposed(text):
+                    objs = tlefile.Downloader(cfg).fetch_spacetrack()
+            elif route == "byname_file":
+                objs = [tlefile.read(lookup, tle_file=pa)]
+            elif route == "byname_stringio":
+                objs = [tlefile.Tle(lookup, tle_file=io.StringIO(text))]
+            elif route == "byname_env":
+                os.environ["TLES"] = os.path.join(tmpdir, "coll-a*.tle")
+                objs = [tlefile.read(lookup)]
+            elif route == "bynumber_file":
+                objs = [tlefile.read(lookup, tle_file=pa)]
+            elif route == "bynumber_stringio":
+                objs = [tlefile.read(lookup, tle_file=io.StringIO(text))]
+            elif route == "first_stringio":
+                objs = [tlefile.Tle("", tle_file=io.StringIO(text))]
+            else:
+                raise AssertionError(route)
+            return ("objs", [(t.line1, t.line2) for t in objs])
+        except Exception as e:  # noqa
+            if isinstance(e, AssertionError):
+                raise
+            return ("exc", "c" if isinstance(e, tlefile.ChecksumError) else type(e).__name__, str(e)[:160])
+    finally:
+        if saved_env is None:
+            os.environ.pop("TLES", None)
+        else:
+            os.environ["TLES"] = saved_env
+
+
+def routes_for(col):
+    """[(route, lookup index or None)] applicable to the collection's layout."""
+    out = [(r, None) for r in WHOLE_ROUTES] + [("first_stringio", None)]
+    if col["names"]:
+        for j in range(len(col["entries"])):
+            out += [(r, j) for r in NAME_ROUTES]
+    if col.get("registered") is not None:
+        out += [("bynumber_file", col["registered"]), ("bynumber_stringio", col["registered"])]
+    return out
+
+
+def lookup_key(col, route, j):
+    if j is None:
+        return None
+    if route.startswith("bynumber"):
+        return col["registered_name"]
+    return col["entries"][j][0]
+
+
+def expected_intact(col, route, j):
+    ent = [(l1, l2) for (_, l1, l2) in col["entries"]]
+    if route in WHOLE_ROUTES:
+        return ent
+    if route == "first_stringio":
+        return ent[:1]
+    return [ent[j]]
+
+
+def corrupt_entries(col, cor):
+    ent = [list(e) for e in col["entries"]]
+    base = ent[cor["entry"]][cor["which"]]
+    ent[cor["entry"]][cor["which"]] = base[:cor["pos"]] + cor["char"] + base[cor["pos"] + 1:]
+    return [tuple(e) for e in ent]
+
+
+def applicable(route, j, cor):
+    """Readers that recognise an entry by the leading '1 ' (or '1 <number>') of its first line do not see an entry whose
+    marker itself is damaged: such a corruption is not put to them (it is put to the readers that find the entry by name)."""
+    if cor["which"] == 1:
+        if route.startswith("bynumber"):
+            return cor["pos"] >= 7 or j != cor["entry"]
+        if route in WHOLE_ROUTES or route == "first_stringio":
+            return cor["pos"] >= 2
+    return True
+
+
+def collection_case(ctx, col, cor, route, j, tmpdir):
+    """One corrupted collection through one entry point (the intact collection is read through it first, same paths).
+    Returns 1 when the statement is violated."""
+    key = lookup_key(col, route, j)
+    res0 = run_route(route, col["entries"], col["sep"], tmpdir, key)
+    if res0 != ("objs", expected_intact(col, route, j)):
+        ctx.count("collection_intact_not_read_as_expected")       # not a checksum matter (C10 / C17)
+        return 0
+    bad_entries = corrupt_entries(col, cor)
+    res = run_route(route, bad_entries, col["sep"], tmpdir, key)
+    ctx.count("eval_oracle_collection")
+    ctx.bump("collection_route", route)
+    k = cor["entry"]
+    bad_lines = (bad_entries[k][1], bad_entries[k][2])
+    case = {"collection": [list(e) for e in col["entries"]], "names": col["names"], "sep": col["sep"],
+            "registered": col.get("registered"), "registered_name": col.get("registered_name"),
+            "corrupt": cor, "route": route, "lookup": j,
+            "line1": bad_lines[0], "line2": bad_lines[1]}
+    site = "tlefile._parse_tles_for_downloader / _get_tles_from_uris / Tle.__init__"
+    must_reject = route in WHOLE_ROUTES or (route == "first_stringio" and k == 0) or (j is not None and j == k)
+    if res[0] == "objs":
+        objs = res[1]
+        unsound = [o for o in objs if not (spec_good(o[0].strip()) and spec_good(o[1].strip()))]
+        if unsound:
+            ctx.violation("corrupt_accepted_from_collection", case, {"element sets returned": [list(o) for o in objs]},
+                          "ChecksumError; no element set whose lines fail the rule", site=site)
+            return 1
+        if must_reject:
+            intact = [(l1, l2) for i, (_, l1, l2) in enumerate(col["entries"]) if i != k]
+            standing = len(objs) > len(intact) if route in WHOLE_ROUTES else True
+            ctx.violation("corrupt_entry_not_rejected", case,
+                          {"element sets returned": [list(o) for o in objs],
+                           "note": ("an element set stands in for the damaged entry" if standing
+                                    else "no checksum error reported")},
+                          "ChecksumError (the damaged entry is entry %d of %d)" % (k + 1, len(col["entries"])), site=site)
+            return 1
+        return 0
+    if must_reject and res[1] != "c":
+        ctx.violation("wrong_error", case, "%s: %s" % (res[1], res[2]), "ChecksumError", site=site)
+        return 1
+    return 0
+
+
+def gen_collection(ctx):
+    rng = ctx.rng
+    tlefile = _tlefile()
+    n = rng.choice([2, 2, 3, 3, 4])
+    names = rng.random() < 0.6
+    ent, seen = [], set()
+    registered = registered_name = None
+    reg_at = rng.randrange(n) if rng.random() < 0.4 else None
+    pool = sorted((nm, num) for nm, num in tlefile.SATELLITES.items() if len(num) == 5 and num.isdigit())
+    while len(ent) < n:
+        i = len(ent)
+        if i == reg_at and pool:
+            registered_name, num = rng.choice(pool)
+            _, l1, l2 = tlegen.random_tle(rng, "any", {"satnum": num})
+        elif rng.random() < 0.3:
+            _, l1, l2 = rng.choice(tlegen.REAL_TLES)
+        else:
+            _, l1, l2 = tlegen.random_tle(rng, "any")
+        if l1[2:7] in seen or (i != reg_at and l1[2:7].strip() in tlefile.SATELLITES.values()):
+            continue
+        seen.add(l1[2:7])
+        if i == reg_at and pool:
+            registered = i
+        ent.append((COLL_NAMES[i] if names else None, l1, l2))
+    return {"entries": ent, "names": names, "sep": rng.choice(["\n", "\n", "\r\n"]), "registered": registered,
+            "registered_name": registered_name}
+
+
+def gen_corruption(rng, col):
+    while True:
+        k = rng.randrange(len(col["entries"]))
+        w = rng.choice([1, 2])
+        base = col["entries"][k][w]
+        p = rng.choice([rng.randrange(len(base)), rng.randrange(len(base)), len(base) - 1, rng.randrange(0, 8)])
+        if base[p] in "0123456789":
+            ch = rng.choice([c for c in "0123456789" if c != base[p]])
+            return {"entry": k, "which": w, "pos": p, "char": ch}
+
+
+def collection_probe(ctx):
+    import logging
+    import shutil
+    n_col = ctx.size(30, 400)
+    n_cor = ctx.size(5, 10)
+    tmpdir = tempfile.mkdtemp(prefix="pv-c09-coll-")
+    prev = logging.root.manager.disable
+    logging.disable(logging.CRITICAL)            # "file does not exist" / "downloaded n TLEs" chatter
+    try:
+        for c in range(n_col):
+            col = gen_collection(ctx)
+            if c < 2:
+                ctx.sample({"collection": [list(e) for e in col["entries"]], "names": col["names"]})
+            found = 0
+            for _ in range(n_cor):
+                cor = gen_corruption(ctx.rng, col)
+                ctx.distinct((col["entries"][cor["entry"]][1][2:7], "coll", cor["entry"], cor["which"], cor["pos"], cor["char"]))
+                for (route, j) in routes_for(col):
+                    if not applicable(route, j, cor):
+                        continue
+                    found += collection_case(ctx, col, cor, route, j, tmpdir)
+                    if found >= 3:
+                        break
+                if found >= 3:
+                    break
+            if len(ctx.violations) > 40:
+                break
+    finally:
+        logging.disable(prev)
+        shutil.rmtree(tmpdir, ignore_errors=True)
+
+
 def match_known(entry, v):
     return False
 
 
 def replay(ctx, case):
     inp = case.get("input", case)
+    if "collection" in inp:
+        import logging
+        import shutil
+        col = {"entries": [tuple(e) for e in inp["collection"]], "names": inp["names"], "sep": inp["sep"],
+               "registered": inp.get("registered"), "registered_name": inp.get("registered_name")}
+        tmpdir = tempfile.mkdtemp(prefix="pv-c09-coll-")
+        prev = logging.root.manager.disable
+        logging.disable(logging.CRITICAL)
+        try:
+            before = len(ctx.violations)
+            bad = collection_case(ctx, col, inp["corrupt"], inp["route"], inp["lookup"], tmpdir)
+            print("collection of %d entries, entry %d line %d column %d -> %r, read through %s%s:" % (
+                len(col["entries"]), inp["corrupt"]["entry"] + 1, inp["corrupt"]["which"], inp["corrupt"]["pos"] + 1,
+                inp["corrupt"]["char"], inp["route"],
+                "" if inp["lookup"] is None else " (looking up entry %d)" % (inp["lookup"] + 1)))
+            for v in ctx.violations[before:]:
+                print("VIOLATES: %s observed=%s required=%s" % (v["kind"], v["observed"], v["required"]))
+            if not bad:
+                print("ok (checksum error, or the intact entry that was looked up)")
+        finally:
+            logging.disable(prev)
+            shutil.rmtree(tmpdir, ignore_errors=True)
+        return 1 if bad else 0
     if "intact_line1" in inp:
         bad = inplace_file_probe(ctx, inp["intact_line1"], inp["intact_line2"], [(inp["line1"], inp["line2"])])
         print("in-place file probe:", "violated" if bad else "ok")
